@@ -732,9 +732,10 @@ def havoc_object(I, o):
 
 
 class LoopContract:
-    def __init__(self, qualname, ordinal, invariant=(), modifies=(), lets=None, step=(), assume_iterated_untouched=False):
+    def __init__(self, qualname, ordinal, invariant=(), modifies=(), lets=None, step=(), assume_iterated_untouched=False, calls=None):
         self.qualname = qualname
         self.ordinal = ordinal
+        self.calls = calls  # name of a method the loop body calls: identifies the loop when loops are added before it
         self.invariant = list(invariant)
         self.modifies = list(modifies)
         self.lets = dict(lets or {})
@@ -784,6 +785,19 @@ def find_loop_contract(I, func, ordn):
     table = dict(I.w.loops)
     table.update(getattr(I, "loop_override", {}))
     lc = table.get((func.qualname, ordn))
+    loops = [n for n in ast.walk(func.node) if isinstance(n, (ast.For, ast.While, ast.AsyncFor))]
+    this = loops[ordn] if 0 <= ordn < len(loops) else None
+
+    def body_calls(loop, name):
+        return any(isinstance(x, ast.Call) and isinstance(x.func, ast.Attribute) and x.func.attr == name for st in loop.body for x in ast.walk(st))
+    if lc is not None and lc.calls and this is not None and not body_calls(this, lc.calls):
+        lc = None  # the ordinal points at another loop now (a loop was added in front of the one the contract describes)
+    if lc is None and this is not None:
+        # the contract of this function whose identifying call the loop body makes, if exactly one loop makes it
+        named = [v for (q, k), v in table.items() if q == func.qualname and v.calls and body_calls(this, v.calls)]
+        same = [l for l in loops if named and body_calls(l, named[0].calls)]
+        if len(named) == 1 and len(same) == 1:
+            lc = named[0]
     if lc is not None:
         return lc
     top = getattr(I, "top", None)
